@@ -125,7 +125,7 @@ def tlc_generate(ctx, module, cfg_text, name, timeout=600, heap="6g", workers=4)
 
 
 # ------------------------------------------------------------------ replay + trace validation
-def replay_and_validate(ctx, exe, batches, tracespec, env_flags, label="b", jobs=14, tlc_timeout=1700, heap="2g"):
+def replay_and_validate(ctx, exe, batches, tracespec, env_flags, label="b", jobs=14, tlc_timeout=1700, heap="2g", crash_prop=None):
     """batches: list of lists of script commands (each batch = several executions separated by reset).
     Returns list of per-batch result dicts; deviations are appended to ctx.devs."""
     os.makedirs(ctx.work, exist_ok=True)
@@ -149,7 +149,10 @@ def replay_and_validate(ctx, exe, batches, tracespec, env_flags, label="b", jobs
             if '"e":"crash"' in tl:
                 ncrash += 1
         if ncrash:
-            return {"i": i, "infra": "the replayer crashed (std::terminate) while executing %s" % script}
+            if crash_prop:      # for this property a crash of the library under the replayed behaviour IS the violation
+                return {"i": i, "crash": {"prop": crash_prop, "code": "replayer.crash", "info": {"last_event": nlines}, "line": max(1, nlines - 1), "exec": 1,
+                                          "batch": i, "script": script}}
+            return {"i": i, "infra": "the replayer crashed while executing %s" % script}
         if nexc:
             return {"i": i, "infra": "%d calls threw an unexpected exception while executing %s (harness or script defect)" % (nexc, script)}
         if nlines != len(cmds):
@@ -163,6 +166,9 @@ def replay_and_validate(ctx, exe, batches, tracespec, env_flags, label="b", jobs
     with ThreadPoolExecutor(max_workers=jobs) as ex:
         results = list(ex.map(one, enumerate(batches)))
     for r in results:
+        if "crash" in r:
+            ctx.devs.append(r["crash"])
+            continue
         if "infra" in r:
             ctx.infra.append(r["infra"])
             continue
